@@ -702,6 +702,7 @@ func (t *gTemplate) source() string {
 	}
 	b.WriteString("}\n")
 	if t.header {
+		// header params usually stand on lines of their own; now and then two share a line
 		for pi, p := range t.params {
 			if p.optional {
 				b.WriteString("{@param? " + p.name + ": ?}\n")
@@ -711,6 +712,16 @@ func (t *gTemplate) source() string {
 			} else {
 				b.WriteString("{@param " + p.name + ": ?}\n")
 			}
+		}
+	}
+	if t.header && len(t.body)%5 == 2 && len(t.params) > 1 {
+		// join the first two header params on one line: "{@param a: ?} {@param b: ?}"
+		s := b.String()
+		i := strings.Index(s, "}\n{@param")
+		if i >= 0 {
+			s = s[:i] + "} " + s[i+2:]
+			b.Reset()
+			b.WriteString(s)
 		}
 	}
 	b.WriteString(t.body)
